@@ -149,7 +149,12 @@ impl World {
             None => false,
         };
         let pre = want.then(|| self.svm.clone());
-        let r = self.svm.process(ixs, signers);
+        // hostsvm turns a panic of the program under test into a failed transaction; run it inside
+        // `guard` only so that the panic hook stays quiet (the message is part of the TxError).
+        let r = match vcommon::monitor::guard(|| self.svm.process(ixs, signers)) {
+            Ok(r) => r,
+            Err(msg) => panic!("hostsvm panicked outside a program call: {msg}"),
+        };
         if let (Ok(_), Some(pre), Some(t)) = (&r, pre, self.trace.0.as_mut()) {
             for ix in ixs {
                 if ix.data.len() >= 8 {
